@@ -11,7 +11,9 @@ Require Import Nib.C07.Model Nib.C07.Spec Nib.C07.Facts Nib.C07.Proofs Nib.C07.P
     selfdestruct beneficiary, and [load] is the keeper's account loader; the theorems about executed messages
     hold for every [kinds], every [m_touch] and every loader that is [loader_faithful] (the one of /repo is
     re-extracted on every run, Gen/C07Oblig.v); for the loader that fills the nonce in only for EthAccounts
-    they are refuted ([C07_eth_only_loader_refuted]). *)
+    they are refuted ([C07_eth_only_loader_refuted]).  [pre] is what ApplyEvmMsg does to the sender's nonce before
+    the EVM runs (since fix 80f60c9: creation -> msg.Nonce(), call -> msg.Nonce()+1); the theorems hold for every
+    [pre] with [pre_create_resets] (a creation runs with the nonce of its transaction). *)
 
 (** A single-message tx is accepted iff the signature recovers an address, the chain id it
     carries (EIP-155 or typed) is this chain's, the remaining (balance/fee) checks pass and its
@@ -36,8 +38,8 @@ Print Assumptions C07_accept_multi_message.
 
 (** A rejected tx (ante failure on either path) leaves every sequence untouched. *)
 Theorem C07_rejected_changes_nothing :
-  forall chain recover kinds load ds s t,
-  r_accepted (snd (deliver chain recover kinds load ds s t)) = false -> fst (deliver chain recover kinds load ds s t) = s.
+  forall chain recover kinds load pre ds s t,
+  r_accepted (snd (deliver chain recover kinds load pre ds s t)) = false -> fst (deliver chain recover kinds load pre ds s t) = s.
 Proof. exact rejected_changes_nothing. Qed.
 Print Assumptions C07_rejected_changes_nothing.
 
@@ -45,9 +47,9 @@ Print Assumptions C07_rejected_changes_nothing.
     succeeds, reverts, runs out of gas or the msg server fails — and the msg-server bracket
     SetNonce(n) … SetNonce(n+1) ends on the same value. *)
 Theorem C07_sequence_plus_one_per_accepted :
-  forall chain recover kinds load, loader_faithful load -> forall ds s t, chain_wf ds = true ->
-  r_accepted (snd (deliver chain recover kinds load ds s t)) = true ->
-  forall a, fst (deliver chain recover kinds load ds s t) a =
+  forall chain recover kinds load, loader_faithful load -> forall pre, pre_create_resets pre -> forall ds s t, chain_wf ds = true ->
+  r_accepted (snd (deliver chain recover kinds load pre ds s t)) = true ->
+  forall a, fst (deliver chain recover kinds load pre ds s t) a =
             (s a + N.of_nat (length (proj a (tx_claims chain recover t))))%N.
 Proof. exact sequence_plus_one_per_accepted. Qed.
 Print Assumptions C07_sequence_plus_one_per_accepted.
@@ -56,8 +58,8 @@ Print Assumptions C07_sequence_plus_one_per_accepted.
     nothing — accepted or not, whatever its execution pays, calls or names as selfdestruct beneficiary, and
     whatever the auth type of the account (EthAccount, BaseAccount, vesting account) — leaves it as it was. *)
 Theorem C07_only_own_txs_move_sequence :
-  forall chain recover kinds load, loader_faithful load -> forall ds s t a, chain_wf ds = true ->
-  proj a (tx_claims chain recover t) = [] -> fst (deliver chain recover kinds load ds s t) a = s a.
+  forall chain recover kinds load, loader_faithful load -> forall pre, pre_create_resets pre -> forall ds s t a, chain_wf ds = true ->
+  proj a (tx_claims chain recover t) = [] -> fst (deliver chain recover kinds load pre ds s t) a = s a.
 Proof. exact only_own_txs_move_sequence. Qed.
 Print Assumptions C07_only_own_txs_move_sequence.
 
@@ -67,8 +69,8 @@ Print Assumptions C07_only_own_txs_move_sequence.
 Theorem C07_eth_only_loader_refuted :
   exists kinds ts,
     hash_binding ch recover_oracle ts /\
-    count_occ Nat.eq_dec (all_executed (trace ch recover_oracle kinds load_eth_only std_chain init ts)) 0 = 2 /\
-    Pb ch recover_oracle [0; 1; 10] init (trace ch recover_oracle kinds load_eth_only std_chain init ts) = false.
+    count_occ Nat.eq_dec (all_executed (trace ch recover_oracle kinds load_eth_only pre_std std_chain init ts)) 0 = 2 /\
+    Pb ch recover_oracle [0; 1; 10] init (trace ch recover_oracle kinds load_eth_only pre_std std_chain init ts) = false.
 Proof. exact eth_only_loader_refuted. Qed.
 Print Assumptions C07_eth_only_loader_refuted.
 
@@ -77,37 +79,48 @@ Print Assumptions C07_eth_only_loader_refuted.
     accepted messages are s0, s0+1, s0+2, … in order — one numbering shared by both tx families —
     and the final sequence is s0 + their number. *)
 Theorem C07_nonce_order_shared_sequence :
-  forall chain recover kinds load, loader_faithful load -> forall ds, chain_wf ds = true -> forall ts s a,
-  proj a (acc_claims chain recover (trace chain recover kinds load ds s ts)) =
-    Nseq (s a) (length (proj a (acc_claims chain recover (trace chain recover kinds load ds s ts)))) /\
-  final s (trace chain recover kinds load ds s ts) a =
-    (s a + N.of_nat (length (proj a (acc_claims chain recover (trace chain recover kinds load ds s ts)))))%N.
+  forall chain recover kinds load, loader_faithful load -> forall pre, pre_create_resets pre -> forall ds, chain_wf ds = true -> forall ts s a,
+  proj a (acc_claims chain recover (trace chain recover kinds load pre ds s ts)) =
+    Nseq (s a) (length (proj a (acc_claims chain recover (trace chain recover kinds load pre ds s ts)))) /\
+  final s (trace chain recover kinds load pre ds s ts) a =
+    (s a + N.of_nat (length (proj a (acc_claims chain recover (trace chain recover kinds load pre ds s ts)))))%N.
 Proof. exact history_consecutive. Qed.
 Print Assumptions C07_nonce_order_shared_sequence.
 
 (** At most once: in any history no signed transaction (identified by its hash, which binds signer
     and nonce) is executed twice. *)
 Theorem C07_at_most_once :
-  forall chain recover kinds load, loader_faithful load -> forall ds s ts u,
+  forall chain recover kinds load, loader_faithful load -> forall pre, pre_create_resets pre -> forall ds s ts u,
   chain_wf ds = true -> hash_binding chain recover ts ->
-  (count_occ Nat.eq_dec (all_executed (trace chain recover kinds load ds s ts)) u <= 1)%nat.
+  (count_occ Nat.eq_dec (all_executed (trace chain recover kinds load pre ds s ts)) u <= 1)%nat.
 Proof. exact at_most_once. Qed.
 Print Assumptions C07_at_most_once.
 
 (** A contract is created at create_addr(signer, k) with k the TRANSACTION's nonce (the value the
     msg server writes before the EVM runs), also when the account sequence is already ahead. *)
 Theorem C07_create_address :
-  forall chain recover kinds load ds s ms s' r, deliver chain recover kinds load ds s (TxEth ms) = (s', r) ->
+  forall chain recover kinds load pre, pre_create_resets pre ->
+  forall ds s ms s' r, deliver chain recover kinds load pre ds s (TxEth ms) = (s', r) ->
   forall u k, In (u, k) (r_created r) ->
   exists m, In m ms /\ m_uid m = u /\ m_nonce m = k /\ m_create m = true /\ m_exec m = ExecOk.
 Proof. exact created_at_tx_nonce. Qed.
 Print Assumptions C07_create_address.
 
+(** … which needs the reset: if ApplyEvmMsg only undid a single ante increment before a creation, a creation
+    followed by another message of the same signer in one tx would be deployed at the address of nonce n+2. *)
+Theorem C07_pre_reset_if_single_increment_refuted :
+  let d := deliver ch recover_oracle kd load_std pre_reset_if_single_increment std_chain init (TxEth [c0; c1]) in
+  r_created (snd d) = [(0, 2%N)] /\
+  Pb ch recover_oracle [0] init [(TxEth [c0; c1], snd d, fst d)] = false /\
+  ~ pre_create_resets pre_reset_if_single_increment.
+Proof. exact pre_reset_if_single_increment_refuted. Qed.
+Print Assumptions C07_pre_reset_if_single_increment_refuted.
+
 (** The trace predicate evaluated on implementation traces holds of every model trace. *)
 Theorem C07_model_satisfies_P :
-  forall chain recover kinds load, loader_faithful load -> forall A ds s ts,
+  forall chain recover kinds load, loader_faithful load -> forall pre, pre_create_resets pre -> forall A ds s ts,
   chain_wf ds = true -> hash_binding chain recover ts ->
-  P chain recover A s (trace chain recover kinds load ds s ts).
+  P chain recover A s (trace chain recover kinds load pre ds s ts).
 Proof. exact model_satisfies_P. Qed.
 Print Assumptions C07_model_satisfies_P.
 
